@@ -183,13 +183,25 @@ class CQN(RLAlgorithm):
 
         # epsilon-greedy
         if random.random() < epsilon:
+            # Batch size (dict / tuple observations are collections of batched members)
+            first_obs = obs
+            while isinstance(first_obs, (dict, tuple)):
+                first_obs = (
+                    next(iter(first_obs.values()))
+                    if isinstance(first_obs, dict)
+                    else first_obs[0]
+                )
+            batch_size = len(first_obs)
+
             if action_mask is None:
-                action = np.random.randint(0, self.action_dim, size=len(obs))
+                action = np.random.randint(0, self.action_dim, size=batch_size)
             else:
+                # Masked actions get a value below any random draw
                 action = np.argmax(
-                    (
-                        np.random.uniform(0, 1, (len(obs), self.action_dim))
-                        * action_mask
+                    np.where(
+                        np.asarray(action_mask).astype(bool),
+                        np.random.uniform(0, 1, (batch_size, self.action_dim)),
+                        -1.0,
                     ),
                     axis=1,
                 )
